@@ -414,10 +414,84 @@ def gen_op(env, rec, ch, u, force=None):
 
 
 # ---------------------------------------------------------------------------------------
+import _thread
+
+_REAL_LOCK = _thread.allocate_lock
+_REAL_RLOCK = threading.RLock
+_ACTORS = {}            # thread ident -> (world, actor) for the simulated threads of the current run
+
+
+class Baton:
+    """a binary signal built directly on a raw interpreter lock (the harness must not use threading.Semaphore /
+    Condition here: those would be built from the cooperative locks below). Strictly alternating release/acquire."""
+
+    def __init__(self):
+        self._l = _REAL_LOCK()
+        self._l.acquire()
+
+    def release(self):
+        self._l.release()
+
+    def acquire(self, timeout=None):
+        if timeout is None:
+            return self._l.acquire()
+        return self._l.acquire(True, timeout)
+
+
+class CoopLock:
+    """stands in for threading.Lock / RLock while threadsim runs: a simulated thread that would block on a lock
+    held by a parked thread hands the baton back instead (the scheduler then runs somebody who can make
+    progress), so that code that protects shared state with locks is scheduled, not dead-locked"""
+
+    def __init__(self, reentrant=False):
+        self._real = _REAL_RLOCK() if reentrant else _REAL_LOCK()
+
+    def acquire(self, blocking=True, timeout=-1):
+        if self._real.acquire(False):
+            return True
+        if not blocking:
+            return False
+        wa = _ACTORS.get(threading.get_ident())
+        if wa is None:
+            return self._real.acquire(True, timeout)
+        world, actor = wa
+        while True:
+            actor.blocked = True
+            world.out.stats["probe:blocked-on-a-lock"] += 1
+            world.yield_from(actor, True)
+            if self._real.acquire(False):
+                actor.blocked = False
+                return True
+
+    def release(self):
+        self._real.release()
+
+    def locked(self):
+        if self._real.acquire(False):
+            self._real.release()
+            return False
+        return True
+
+    def __enter__(self):
+        self.acquire()
+        return self
+
+    def __exit__(self, *a):
+        self.release()
+
+    def _is_owned(self):
+        return self._real._is_owned() if hasattr(self._real, "_is_owned") else self.locked()
+
+
+def install_coop_locks():
+    threading.Lock = lambda: CoopLock(False)
+    threading.RLock = lambda: CoopLock(True)
+
+
 class Actor:
     def __init__(self, idx):
         self.idx = idx
-        self.go = threading.Semaphore(0)
+        self.go = Baton()
         self.budget = -1
         self.in_op = False
         self.done = False
@@ -427,6 +501,7 @@ class Actor:
         self.error = None
         self.where = None
         self.preempted = False
+        self.blocked = False
 
 
 class World:
@@ -436,12 +511,13 @@ class World:
         self.eng, self.env, self.out = eng, env, out
         self.packets, self.actors = packets, actors
         self.opcode_level = opcode_level
-        self.back = threading.Semaphore(0)
+        self.back = Baton()
         self.events = 0
         self.segments = []
         self.timed_out = False
         self.violation = None
         self.aborted = False
+        self._all_blocked_rounds = 0
         self.log = out.events.append
 
     # ---- runs in actor threads --------------------------------------------------------
@@ -477,6 +553,7 @@ class World:
     def actor_main(self, a):
         env, st = self.env, self.out.stats
         tracer = self.make_tracer(a)
+        _ACTORS[threading.get_ident()] = (self, a)
         a.go.acquire()
         try:
             n = len(a.script)
@@ -508,6 +585,7 @@ class World:
             a.error = traceback.format_exc()
         finally:
             a.done = True
+            _ACTORS.pop(threading.get_ident(), None)
             self.back.release()
 
     def check_after(self, rec, opi, op, obs):
@@ -577,6 +655,13 @@ class World:
             if not runnable:
                 return
             order = ([current] + [a for a in runnable if a is not current]) if (current is not None and not current.done) else runnable
+            free = [a for a in order if not a.blocked]
+            if free:
+                order = free
+            elif all(a.blocked for a in runnable) and self._all_blocked_rounds > 3 * len(runnable):
+                self.timed_out = True          # every thread waits for a lock another one holds: a real deadlock
+                return
+            self._all_blocked_rounds = self._all_blocked_rounds + 1 if not free else 0
             nxt = order[ch.draw("next-actor", len(order), stream="sched")]          # 0 = stay on the current actor
             if left > 0 and len(runnable) > 1 and ch.chance("preempt?", 1, 2, stream="sched"):
                 k = ch.weighted("budget-class", [3, 3, 2], stream="sched")
@@ -590,7 +675,7 @@ class World:
                 st["probe:two-ops-in-flight"] += 1
             if not self.step(nxt, budget):
                 return
-            if nxt.preempted and not nxt.done:
+            if nxt.preempted and not nxt.done and not nxt.blocked:
                 left -= 1
                 st["fault:preempt-inside-operation"] += 1
                 st["probe:switch-in:%s" % nxt.where] += 1
@@ -637,6 +722,7 @@ class ThreadEngine(Engine):
         self.wdir = wdir
         os.makedirs(wdir, exist_ok=True)
         threading.stack_size(512 * 1024)
+        install_coop_locks()
 
     def scenario(self, tier, idx):
         # opcode granularity: half of the thorough runs, and one duel sweep in four of the quick tier
@@ -824,8 +910,13 @@ class ThreadEngine(Engine):
             preempted = ok and va.preempted and not va.done
             if ok:
                 ok = w.step(ga, -1)                       # the aggressor's whole last operation
-            if ok and not va.done:
-                ok = w.step(va, -1)
+            rounds = 0
+            while ok and (not va.done or not ga.done) and rounds < 50:
+                # normally one more step of the victim; more only when locks make the two wait for each other
+                rounds += 1
+                for a in (va, ga):
+                    if ok and not a.done:
+                        ok = w.step(a, -1)
             if not ok or w.timed_out:
                 return w, None
             w.finish()
